@@ -57,6 +57,8 @@ type RedisScenario struct {
 	Conns    []ConnScript   `json:"conns"`
 	Faults   []Fault        `json:"faults,omitempty"`
 	HorizonS int            `json:"horizon_s,omitempty"`
+	// KeepStrategy: the scheduling strategy stays in force although no fault is pending (see Draining)
+	KeepStrategy bool `json:"keep_strategy,omitempty"`
 	// MigStepMs: simulated milliseconds between two steps of a slot migration (0: as fast as the scheduler lets them)
 	MigStepMs int  `json:"mig_step_ms,omitempty"`
 	EndStop   bool `json:"end_stop,omitempty"`  // end the history with Stop (C20)
@@ -809,7 +811,10 @@ func (w *redisWorld) Deadline() time.Time {
 	return ref.Add(w.horizon())
 }
 
-func (w *redisWorld) Draining() bool { return w.allFaultsFired() }
+// Draining: once every fault has fired the scheduler turns fair, so that liveness is judged on a schedule that does
+// not starve anybody. A scenario whose point is an unfair schedule without any fault keeps its strategy (the driver's
+// final drain is fair in any case).
+func (w *redisWorld) Draining() bool { return w.allFaultsFired() && !w.sc.KeepStrategy }
 
 // waitSites: where tasks that wait for a request to complete are blocked (stable signature part).
 func (w *redisWorld) waitSites() []string {
